@@ -211,6 +211,10 @@ func c19Schema() *schema.BodySchema {
 		Blocks: map[string]*schema.BlockSchema{
 			"variable": {Labels: []*schema.LabelSchema{{Name: "name"}}, Body: &schema.BodySchema{Attributes: map[string]*schema.AttributeSchema{"default": anyOf(cty.DynamicPseudoType), "desc": {Constraint: schema.LiteralType{Type: cty.String}, IsOptional: true}}},
 				Address: &schema.BlockAddrSchema{Steps: schema.Address{schema.StaticStep{Name: "var"}, schema.LabelStep{Index: 0}}, ScopeId: "sv", AsReference: true, FriendlyName: "variable"}},
+			"mixed": {Body: &schema.BodySchema{
+				Blocks: map[string]*schema.BlockSchema{"meta": {Body: &schema.BodySchema{Attributes: map[string]*schema.AttributeSchema{"owner": anyOf(cty.String)}}}},
+				AnyAttribute: &schema.AttributeSchema{Constraint: schema.AnyExpression{OfType: cty.DynamicPseudoType}, IsOptional: true,
+					Address: &schema.AttributeAddrSchema{Steps: schema.Address{schema.StaticStep{Name: "mixed"}, schema.AttrNameStep{}}, ScopeId: "sm", AsReference: true, AsExprType: true}}}},
 			"locals": {Body: &schema.BodySchema{AnyAttribute: &schema.AttributeSchema{Constraint: schema.AnyExpression{OfType: cty.DynamicPseudoType}, IsOptional: true,
 				Address: &schema.AttributeAddrSchema{Steps: schema.Address{schema.StaticStep{Name: "local"}, schema.AttrNameStep{}}, ScopeId: "sl", AsReference: true, AsExprType: true}}}},
 			"resource": {Labels: []*schema.LabelSchema{{Name: "type"}, {Name: "name"}},
@@ -230,7 +234,9 @@ func c19Schema() *schema.BodySchema {
 // c19Configs: a base configuration plus one-at-a-time variations of every attribute's value form.
 func c19Configs() [][]citem {
 	attr := func(n string, v cval) citem { return citem{attr: n, val: v} }
-	blk := func(t string, labels []string, body ...citem) citem { return citem{block: t, labels: labels, body: body} }
+	blk := func(t string, labels []string, body ...citem) citem {
+		return citem{block: t, labels: labels, body: body}
+	}
 	base := []citem{
 		blk("variable", []string{"a"}, attr("default", cStr("d"))),
 		blk("variable", []string{"b"}),
@@ -265,6 +271,8 @@ func c19Configs() [][]citem {
 	}
 	// locals (AnyAttribute) with every value form, nested collections
 	out = append(out, []citem{blk("variable", []string{"a"}), blk("locals", nil, attr("p", cStr("x")), attr("q", cList(cNum("1"), cNum("2"))), attr("r", cObj("k", cObj("kk", cStr("v")))), attr("t", cRef("var.a")))})
+	// an any-attribute body that also declares a block type
+	out = append(out, []citem{blk("variable", []string{"team"}), blk("mixed", nil, attr("region", cStr("eu")), blk("meta", nil, attr("owner", cRef("var.team"))))})
 	// label-less blocks, several of one type
 	out = append(out, []citem{blk("plain", nil, attr("s", cStr("1"))), blk("plain", nil, attr("s", cRef("var.zz")))})
 	// several resources
@@ -275,7 +283,9 @@ func c19Configs() [][]citem {
 // more contexts: every value form in every attribute context
 func c19MoreConfigs() [][]citem {
 	attr := func(n string, v cval) citem { return citem{attr: n, val: v} }
-	blk := func(t string, labels []string, body ...citem) citem { return citem{block: t, labels: labels, body: body} }
+	blk := func(t string, labels []string, body ...citem) citem {
+		return citem{block: t, labels: labels, body: body}
+	}
 	forms := []cval{cStr("x"), cStr(""), cNum("3"), cBool("false"), cRef("var.a"), cRef("aws.one.tags"), cTmpl("var.a"), cList(cStr("a"), cRef("var.a")), cList(cList(cStr("n"))),
 		cObj("k", cStr("v"), "r", cRef("var.a")), cObj("o", cObj("p", cList(cNum("1"), cNum("2"))))}
 	var out [][]citem
@@ -363,7 +373,9 @@ func projectOrigins(os reference.Origins) []projOrigin {
 			out = append(out, projOrigin{lo.Addr.String(), strings.Join(cs, ",")})
 		}
 	}
-	sort.Slice(out, func(i, j int) bool { return out[i].Addr < out[j].Addr || (out[i].Addr == out[j].Addr && out[i].Cons < out[j].Cons) })
+	sort.Slice(out, func(i, j int) bool {
+		return out[i].Addr < out[j].Addr || (out[i].Addr == out[j].Addr && out[i].Cons < out[j].Cons)
+	})
 	return out
 }
 
